@@ -229,7 +229,7 @@ def execute(scen):
             elif op == "settle":
                 sim.settle()
             elif op == "gap":
-                sim.run_for(st["dt"])
+                sim.gap(st)
             else:
                 res = apply_step(stack, st)
                 if res.error:
